@@ -65,24 +65,34 @@ def appendHeader {σ} (H : Header) (cfg : WConfig σ) (ms : List WMember) : Opti
                  filesInfo := some newFiles }
       | _, _, _ => none
 
+/-- the header object `_real_get_contents` leaves in memory (raw next header only) -/
+def headerOfImage (base : Bytes) : Option Header := do
+  let (_, hdr0) ← locateHeader base
+  match readNextHeader hdr0 with
+  | .ok (.raw h) => some h
+  | .ok .empty => some {}
+  | _ => none
+
+/-- `_prepare_append`: the end of the packed streams -/
+def appendPos (H : Header) : Nat :=
+  match H.mainStreams with
+  | some st => (match st.packinfo with
+    | some p => 32 + p.packpos + p.packsizes.sum
+    | none => 32)
+  | none => 32
+
+/-- the file after the new packed data, the header and the signature header have been written:
+    nothing truncates it, what lay beyond the new end stays -/
+def assembleAppend (base : Bytes) (pos : Nat) (out hdr : Bytes) : Bytes :=
+  let body := (base.take pos ++ List.replicate (pos - base.length) 0) ++ out ++ hdr
+  sigHeaderBytes (pos + out.length - 32) hdr.length (crc32 hdr) ++ body.drop 32 ++ base.drop body.length
+
 /-- the archive file after an append session (raw header mode) on the image `base` -/
 def appendArchive {σ} (base : Bytes) (cfg : WConfig σ) (ms : List WMember) : Option Bytes := do
-  let (_, hdr0) ← locateHeader base
-  let H ← (match readNextHeader hdr0 with
-    | .ok (.raw h) => some h
-    | .ok .empty => some {}
-    | _ => none)
-  let pos := match H.mainStreams with
-    | some st => (match st.packinfo with
-      | some p => 32 + p.packpos + p.packsizes.sum
-      | none => 32)
-    | none => 32
+  let H ← headerOfImage base
   let (H', out) ← (if ms.isEmpty then some (H, ([] : Bytes)) else
     (appendHeader H cfg ms).map (fun h => (h, (sessionCompress cfg ms).1.out)))
-  let hdr ← writeHeaderRaw true H' (pos + out.length)
-  let body := (base.take pos ++ List.replicate (pos - base.length) 0) ++ out ++ hdr
-  let sig := sigHeaderBytes (pos + out.length - 32) hdr.length (crc32 hdr)
-  -- nothing truncates the file: what lay beyond the new end stays
-  pure (sig ++ body.drop 32 ++ base.drop body.length)
+  let hdr ← writeHeaderRaw true H' (appendPos H + out.length)
+  pure (assembleAppend base (appendPos H) out hdr)
 
 end SevenZ.Impl
